@@ -625,7 +625,7 @@ func judgePublic(o *fw.Obs, cid byte, mp *slip10m.Params, node *slip10.ExtendedK
 var idxPool = []uint32{0, 1, 2, 1<<31 - 1, 1 << 31, 1<<31 + 1, 1<<32 - 1, 44 + 1<<31, 1000000000}
 
 func gen(g *fw.Gen) {
-	for n := g.ShareOf(2400, 100000); n > 0; n-- {
+	for n := g.ShareOf(2400, 60000); n > 0; n-- {
 		cid := byte(g.Rng.Intn(nCurves))
 		var seed []byte
 		switch g.Rng.Intn(6) {
